@@ -625,18 +625,22 @@ def baseBody (F : Nat) (c : Core) (defaultAccess : String) (bases : List BaseCla
 def parseClassDeclBaseClause (F : Nat) (c : Core) (defaultAccess : String) : M (List BaseClass) :=
   loopN F ([] : List BaseClass) (baseBody F c defaultAccess)
 
+/-- one iteration of the `final` / `explicit` loop of `_parse_class_decl`: (token, explicit, final) -/
+def classSpecBody (st : CTok × Bool × Bool) : M ((CTok × Bool × Bool) ⊕ (CTok × Bool × Bool)) := do
+  let (tok, explicit, final) := st
+  if tok.type = "final" then do
+    let t ← token
+    pure (.inl (t, explicit, true))
+  else if tok.type = "explicit" then do
+    let t ← token
+    pure (.inl (t, true, final))
+  else pure (.inr (tok, explicit, final))
+
 /-- `_parse_class_decl(typename, tok, doxygen, template, typedef, location, mods)` -/
 def parseClassDecl (F : Nat) (c : Core) (typename : PQName) (tok : CTok) (doxygen : Option String)
     (template : TemplateVar) (typedef : Bool) (location : LocRef) (mods : Mods) : M Unit := do
   let defaultAccess := if typename.classkey = some "class" then "private" else "public"
-  let (tok, explicit, final) ← loopN F (tok, false, false) (fun (tok, explicit, final) => do
-    if tok.type = "final" then do
-      let t ← token
-      pure (.inl (t, explicit, true))
-    else if tok.type = "explicit" then do
-      let t ← token
-      pure (.inl (t, true, final))
-    else pure (.inr (tok, explicit, final)))
+  let (tok, explicit, final) ← loopN F (tok, false, false) classSpecBody
   let (tok, bases) ← (
     if tok.type = ":" then do
       let bases ← parseClassDeclBaseClause F c defaultAccess
